@@ -225,6 +225,16 @@ func c01Stream(space string) engine.RunFunc {
 				return
 			}
 		}
+		// the terminal report says why the stream ended: an error, and io.EOF only at the end of the input
+		if n <= 4096 {
+			if e := s.err(); e == nil {
+				c.Fail("terminal-report-without-error", fmt.Sprintf("after %d calls the error token repeats at offset %d of %d but Err() is nil", calls, prevOff, n))
+				return
+			} else if e == io.EOF && prevOff != n {
+				c.Fail("eof-before-the-end", fmt.Sprintf("after %d calls the end of the input (io.EOF) is reported at offset %d of %d", calls, prevOff, n))
+				return
+			}
+		}
 		for i := 0; i < 3; i++ {
 			tt, data := s.next()
 			e := s.err()
@@ -411,7 +421,7 @@ func c01Finish(c *engine.Ctx, cov map[string]interface{}) string {
 func init() {
 	register(&engine.Check{
 		ID: "C01", Level: "exploration",
-		Rule:        "all atom sequences up to the per-alphabet bound (DESIGN §2) through css.Lexer, css.Parser×{stylesheet,inline}, html.Lexer×{plain, each distinct template delimiter pair}, xml.Lexer, json.Parser, js.Lexer×{Next only, RegExp() after every / and /=}, js.Parse×4 Options (+String/JS/JSON/Walk); edit balls (all truncations, deletions, single-atom insertions/substitutions) around the seed catalogue; nesting templates per recursive construct at depths up to 10^6 in child processes; each driven past the first error to the repeating terminal report and three calls beyond. distinct_nontrivial = canonical (distinct byte string) sequences of ≥2 atoms + distinct edit-ball members",
+		Rule:        "all atom sequences up to the per-alphabet bound (DESIGN §2) through css.Lexer, css.Parser×{stylesheet,inline}, html.Lexer×{plain, each distinct template delimiter pair}, xml.Lexer, json.Parser, js.Lexer×{Next only, RegExp() after every / and /=}, js.Parse×4 Options (+String/JS/JSON/Walk); edit balls (all truncations, deletions, single-atom insertions/substitutions) around the seed catalogue; nesting templates per recursive construct at depths up to 10^6 in child processes; each driven past the first error to the repeating terminal report (which must carry an error, io.EOF only at the end of the input) and three calls beyond. distinct_nontrivial = canonical (distinct byte string) sequences of ≥2 atoms + distinct edit-ball members",
 		Assumptions: []string{"a report is terminal when the next call repeats the same error token, Err() text and offset", "inputs are handed over with spare capacity so that the terminator lies outside the caller's bytes"},
 		Setup:       c01Setup, Work: c01Work, Finish: c01Finish, Child: c01Child,
 	})
